@@ -4,6 +4,7 @@ import (
 	"context"
 	"errors"
 	"fmt"
+	"sort"
 	"strings"
 	"time"
 
@@ -123,6 +124,7 @@ func byteOffsets(r *core.Run, n int64, seed int64) []int64 {
 	for k := range seen {
 		out = append(out, k)
 	}
+	sort.Slice(out, func(i, j int) bool { return out[i] < out[j] })
 	return out
 }
 
@@ -158,13 +160,14 @@ func c04One(r *core.Run, sc scn, seed int64, f *fault) {
 	}
 	defer cl.Close()
 	if !o.Returned {
-		n, armed := o.Sim.Conn.BlockedReaders()
+		n, armed := o.StuckReaders, o.StuckArmed
 		if f.Gate == "no-deadline" && n > 0 && !armed {
 			fail("do-does-not-return:undecodable-packet-then-silence", fmt.Sprintf("no caller deadline, ReadTimeout 100ms: an altered packet code makes the client wait for a packet body; %d reader blocked in Read with no deadline armed, Do never returns", n))
 			o.Sim.Conn.Close()
 			return
 		}
-		fail("do-does-not-return:"+f.Kind, fmt.Sprintf("Do did not return within the watchdog (blocked readers: %d, read deadline armed: %v); library goroutines:\n%s", n, armed, clipS(strings.Join(libraryGoroutines(), "\n---\n"))))
+		fail("do-does-not-return:"+f.Kind, fmt.Sprintf("Do did not return within the watchdog (blocked readers: %d, read deadline armed: %v, queued items: %d); library goroutines:\n%s", n, armed, o.StuckQueue, clipS2(o.StuckStacks, 3000)))
+		o.Sim.Conn.Close()
 		return
 	}
 	r.SetAdd("hook_orders", fmt.Sprintf("%016x", hookSignature(o.Hooks)))
